@@ -78,7 +78,7 @@ func init() {
 			}
 			for i := 0; i < n && !b.Stop(); i++ {
 				b.Case("fc-history", "")
-				runFcHistory(b, catQuery, fcParams{maxOps: maxOps, withUpdates: i%4 != 0}, i)
+				runFcHistory(b, catQuery, fcParams{maxOps: maxOps, withUpdates: i%4 != 0, sinkFaults: i%2 == 1}, i)
 			}
 		},
 		Required: []string{"q_getslot", "q_insubtree", "q_closest", "q_canonatslot", "q_canonicalchain", "q_search", "q_unknown_root", "histories_with_forks", "histories_with_prune"},
